@@ -339,12 +339,22 @@ int __wrap_pthread_rwlock_init(pthread_rwlock_t* m, const pthread_rwlockattr_t* 
   }
   return __real_pthread_rwlock_init(m, a);
 }
+static int g_alloc_fail_at, g_alloc_n;      /* O<k>: the k-th allocation inside libuv from now on fails */
+static int alloc_fails(void) {
+  if (!g_in_uv || g_alloc_fail_at == 0 || getpid() != g_pid) return 0;
+  if (++g_alloc_n != g_alloc_fail_at) return 0;
+  g_alloc_fail_at = 0;
+  OUT("Q ");
+  return 1;
+}
+static void* my_malloc(size_t n) { return alloc_fails() ? NULL : malloc(n); }
+static void* my_realloc(void* p, size_t n) { return alloc_fails() ? NULL : realloc(p, n); }
 static void* my_calloc(size_t n, size_t s) {
   if (g_in_loop_init) {
     g_calloc_n++;
     if (g_nofd == 1 && g_calloc_n == 1) return NULL;
   }
-  return calloc(n, s);
+  return alloc_fails() ? NULL : calloc(n, s);
 }
 
 /* ------------------------------------------------------------------ */
@@ -485,6 +495,7 @@ static void run_token(const char* t) {
   if (t[0] == 'F') { g_fail_at = atoi(t + 1);
     { char c = t[strlen(t) - 1]; g_fail_errno = c == 'n' ? ENFILE : c == 'm' ? ENOMEM : EMFILE; } return; }
   if (t[0] == 'N') { g_nofd = atoi(t + 1); return; }
+  if (t[0] == 'O') { g_alloc_fail_at = atoi(t + 1); g_alloc_n = 0; return; }
   if (t[0] == 'D') {            /* D<fd>: the caller replaces descriptor fd by a UDP socket of its own */
     int fd = atoi(t + 1), sk = __real_socket(AF_INET, SOCK_DGRAM, 0);
     close(fd); if (fd < MAXFD) tab[fd] = ST_NONE; OUT("{ c%d }uf:%d=0 ", fd, fd);
@@ -579,6 +590,25 @@ static void run_token(const char* t) {
     } else if (t[1] == 'u') {
       if (given[h] < 0) { OUT("{ }-=skip "); return; }
       OUT("{ c%d ", given[h]); close(given[h]); tab[given[h]] = ST_NONE; OUT("}uc:%d=0 ", h); given[h] = -1;
+    } else if (t[0] == 'g' && t[1] == 'w') {       /* gw<g>:<n>  the caller sends n descriptors in one message */
+      struct msghdr msg; struct iovec iov; char c = 'x';
+      union { char buf[CMSG_SPACE(64 * sizeof(int))]; struct cmsghdr align; } u;
+      struct cmsghdr* cm; int nfd = atoi(arg), k, src;
+      ssize_t r;
+      if (given[h] < 0 || nfd < 1 || nfd > 60) { OUT("{ }-=skip "); return; }
+      k = __real_open64("/dev/null", O_RDONLY | O_CLOEXEC, 0);
+      src = __real_fcntl64(k, F_DUPFD_CLOEXEC, PRIV);
+      close(k);
+      memset(&msg, 0, sizeof msg); memset(&u, 0, sizeof u);
+      iov.iov_base = &c; iov.iov_len = 1; msg.msg_iov = &iov; msg.msg_iovlen = 1;
+      msg.msg_control = u.buf; msg.msg_controllen = CMSG_SPACE(nfd * sizeof(int));
+      cm = CMSG_FIRSTHDR(&msg); cm->cmsg_level = SOL_SOCKET; cm->cmsg_type = SCM_RIGHTS;
+      cm->cmsg_len = CMSG_LEN(nfd * sizeof(int));
+      for (k = 0; k < nfd; k++) memcpy(CMSG_DATA(cm) + k * sizeof(int), &src, sizeof src);
+      r = sendmsg(given[h], &msg, 0);
+      close(src);
+      OUT("{ }-=%d ", r == 1 ? 0 : -1);
+      if (r == 1) writes_ok++;
     } else if (t[1] == 'p' || t[1] == 's') {
       uv_file fds[2] = { -1, -1 };
       b = atoi(arg);
@@ -642,16 +672,18 @@ static void run_token(const char* t) {
 
   if (t[0] == 's' && t[1] == 'p') {                 /* sp<h>:<p<k>|i|h>,...:<ok|ne> */
     uv_process_options_t o;
-    uv_stdio_container_t sc[8];
-    char* args[3];
+    uv_stdio_container_t sc[12];
+    char expect[128] = "";
+    char* args[4];
+    char rslot[16];
     char exe[512], sd[128] = "", spec[64], *mode, *q, *sv2 = NULL;
-    int n = 0, rep[2] = { -1, -1 }, streams[8], ns = 0, i;
+    int n = 0, rep[2] = { -1, -1 }, streams[12], ns = 0, i;
     ssize_t len;
     if (new_handle(h, 'P', sizeof(uv_process_t))) { OUT("!slot "); return; }
     snprintf(spec, sizeof spec, "%s", arg);
     mode = strchr(spec, ':');
     if (mode) *mode++ = 0; else mode = "ok";
-    for (q = strtok_r(spec, ",", &sv2); q != NULL && n < 6; q = strtok_r(NULL, ",", &sv2), n++) {
+    for (q = strtok_r(spec, ",", &sv2); q != NULL && n < 10; q = strtok_r(NULL, ",", &sv2), n++) {
       if (q[0] == 'p') {
         int sh = atoi(q + 1);
         if (sh < 0 || sh >= NH || hs[sh] == NULL || hkind[sh] != 'p') { OUT("!spawnstream "); free(hs[h]); hs[h] = NULL; return; }
@@ -660,7 +692,7 @@ static void run_token(const char* t) {
         streams[ns++] = sh;
         snprintf(sd + strlen(sd), sizeof sd - strlen(sd), "%sp%d", n ? "," : "", midx[sh]);
       } else if (q[0] == 'h') {
-        sc[n].flags = UV_INHERIT_FD; sc[n].data.fd = n < 3 ? n : 2;
+        sc[n].flags = UV_INHERIT_FD; sc[n].data.fd = q[1] ? atoi(q + 1) : (n < 3 ? n : 2);
         snprintf(sd + strlen(sd), sizeof sd - strlen(sd), "%sh", n ? "," : "");
       } else {
         sc[n].flags = UV_IGNORE;
@@ -678,11 +710,16 @@ static void run_token(const char* t) {
     sc[n].flags = UV_INHERIT_FD; sc[n].data.fd = rep[1];
     snprintf(sd + strlen(sd), sizeof sd - strlen(sd), ",h");
     n++;
+    /* what the child must find open: 0-2 always, a higher slot unless ignored, the report pipe */
+    for (i = 0; i < n; i++)
+      if (i < 3 || sc[i].flags != UV_IGNORE)
+        snprintf(expect + strlen(expect), sizeof expect - strlen(expect), "%s%d", i ? "," : "", i);
     len = readlink("/proc/self/exe", exe, sizeof exe - 1);
     exe[len > 0 ? len : 0] = 0;
     memset(&o, 0, sizeof o);
     o.file = !strcmp(mode, "ne") ? "/nonexistent/c15_child" : exe;
-    args[0] = (char*) o.file; args[1] = "--child"; args[2] = NULL;
+    snprintf(rslot, sizeof rslot, "%d", n - 1);
+    args[0] = (char*) o.file; args[1] = "--child"; args[2] = rslot; args[3] = NULL;
     o.args = args; o.exit_cb = exit_cb; o.stdio = sc; o.stdio_count = n;
     BEGIN(); rc = uv_spawn(&loop, (uv_process_t*) hs[h], &o); registered(h);
     END("sp:%d:%s:%d=%d", midx[h], sd, rc == 0, rc);
@@ -691,8 +728,9 @@ static void run_token(const char* t) {
       char buf[1024]; size_t got = 0; ssize_t r;
       pending++;
       while ((r = read(rep[0], buf + got, sizeof buf - 1 - got)) > 0) got += r;
+    (void) streams;
       buf[got] = 0;
-      OUT("{ C%s }-=0 ", got ? buf : "-");
+      OUT("{ C%s/%s }-=0 ", got ? buf : "-", expect);
     }
     close(rep[0]);
     return;
@@ -862,7 +900,7 @@ static int worker(char* line, int resfd) {
     if (__real_fcntl64(fd, F_GETFD, 0) >= 0) tab[fd] = fd >= PRIV ? ST_PRIV : ST_USER;
   for (i = 0; i < NH; i++) given[i] = -1;
   g_pid = getpid();
-  uv_replace_allocator(malloc, realloc, my_calloc, free);
+  uv_replace_allocator(my_malloc, my_realloc, my_calloc, free);
   alarm(60);
   print_table("I");
   for (tok = strtok_r(line, " \t\r\n", &sv); tok != NULL; tok = strtok_r(NULL, " \t\r\n", &sv))
@@ -874,19 +912,19 @@ static int worker(char* line, int resfd) {
   return 0;
 }
 
-static int child_main(void) {
+static int child_main(int rfd) {
   char buf[1024];
   int fd, n = 0;
   for (fd = 0; fd < MAXFD; fd++)
     if (fcntl(fd, F_GETFD) >= 0) n += snprintf(buf + n, sizeof buf - n, "%s%d", n ? "," : "", fd);
-  { ssize_t w = write(3, buf, n); (void) w; }
+  { ssize_t w = write(rfd, buf, n); (void) w; }
   return 0;
 }
 
 int main(int argc, char** argv) {
   static char line[1 << 14];
   int resfd;
-  if (argc >= 2 && !strcmp(argv[1], "--child")) return child_main();
+  if (argc >= 2 && !strcmp(argv[1], "--child")) return child_main(argc >= 3 ? atoi(argv[2]) : 3);
   if (argc < 2) return 2;
   g_dir = argv[1];
   resfd = fcntl(1, F_DUPFD_CLOEXEC, PRIV + 50);
